@@ -1,9 +1,253 @@
-(* C16 — property theorems only. *)
-From Coq Require Import List ZArith Bool.
-From AV Require Import model.C16_model proofs.C16_choose.
+(* C16 — containers get the cheapest adequate instance type and start in priority order.
+   Property theorems only; each is closed by `exact` of a lemma from proofs/C16_*.v.
+   Models: model/C16_model.v (lib/dispatchcloud/node_size.go), model/C16_runq.v
+   (lib/dispatchcloud/scheduler/run_queue.go).  The harness compares exactly these definitions with the
+   Go code (model/C16_run.v, model/C16_runq_run.v). *)
+From Coq Require Import List ZArith Bool String NArith Permutation Sorted.
+From AV Require Import model.C16_model model.C16_run proofs.C16_choose proofs.C16_spec.
 Import ListNotations.
 Local Open Scope Z_scope.
 
+(* ---------------------------------------------------------------------------------------------- *)
+(* ChooseInstanceType: [choose_need n ts] is the fold over the table [ts] in ANY order (Go map      *)
+(* iteration); n = need_of reserve ctr carries needRAM (int64 arithmetic incl. wrap), needScratch,  *)
+(* VCPUs and the preemptible flag.                                                                  *)
+
+(* the chosen type satisfies every constraint (no hypothesis on the table or the container) *)
 Theorem C16_choose_adequate : forall n ts r, choose_need n ts = Chosen r -> adequate n r = true.
 Proof. exact choose_adequate. Qed.
 Print Assumptions C16_choose_adequate.
+
+Theorem C16_adequate_spec : forall n t,
+  adequate n t = true <->
+  n_scratch n <= scratch t /\ n_ram n <= ram t /\ n_vcpus n <= vcpus t /\ preempt t = n_preempt n.
+Proof. exact adequate_spec. Qed.
+Print Assumptions C16_adequate_spec.
+
+(* never an arbitrary type: the answer is an entry of the table *)
+Theorem C16_choose_in_table : forall n ts r, choose_need n ts = Chosen r -> In r ts.
+Proof. exact choose_in_table. Qed.
+Print Assumptions C16_choose_in_table.
+
+(* no other configured type satisfying the constraints is cheaper.  all_sane: RAM and VCPUs of the
+   configured types are >= 0 (see C16_choose_needs_sane for why the code needs that) *)
+Theorem C16_choose_cheapest : forall n ts r x,
+  all_sane ts -> choose_need n ts = Chosen r -> In x ts -> adequate n x = true -> price r <= price x.
+Proof. exact choose_cheapest. Qed.
+Print Assumptions C16_choose_cheapest.
+
+(* tie-break: among adequate types of the same price the answer is not strictly dominated in
+   (RAM, VCPUs) *)
+Theorem C16_choose_pareto : forall n ts r x,
+  all_sane ts -> choose_need n ts = Chosen r -> In x ts -> adequate n x = true -> price x = price r ->
+  ~ (ram r <= ram x /\ vcpus r <= vcpus x /\ (ram r < ram x \/ vcpus r < vcpus x)).
+Proof. exact choose_pareto. Qed.
+Print Assumptions C16_choose_pareto.
+
+(* an unsatisfiable container gets an error ... *)
+Theorem C16_choose_error_iff_none : forall n ts,
+  all_sane ts -> ts <> [] ->
+  ((exists av, choose_need n ts = ErrUnsat av) <-> forall x, In x ts -> adequate n x = false).
+Proof. exact choose_error_iff_none. Qed.
+Print Assumptions C16_choose_error_iff_none.
+
+Theorem C16_choose_no_types : forall n ts, choose_need n ts = ErrNoTypes <-> ts = [].
+Proof. exact choose_no_types. Qed.
+Print Assumptions C16_choose_no_types.
+
+(* ... listing all available types, by price *)
+Theorem C16_choose_error_lists_all : forall n ts av,
+  choose_need n ts = ErrUnsat av -> Permutation av ts /\ StronglySorted (fun a b => price a <= price b) av.
+Proof. exact choose_error_lists_all. Qed.
+Print Assumptions C16_choose_error_lists_all.
+
+(* the price of the answer (and whether there is one) does not depend on the map iteration order *)
+Theorem C16_choose_price_order_independent : forall n ts ts',
+  all_sane ts -> Permutation ts ts' ->
+  match choose_need n ts, choose_need n ts' with
+  | Chosen x, Chosen y => price x = price y
+  | ErrNoTypes, ErrNoTypes => True
+  | ErrUnsat _, ErrUnsat _ => True
+  | _, _ => False
+  end.
+Proof. exact choose_price_order_independent. Qed.
+Print Assumptions C16_choose_price_order_independent.
+
+(* the order-independent characterisation the evaluator uses for tables of more than 5 types *)
+Theorem C16_choose_is_candidate : forall n ts r,
+  all_sane ts -> choose_need n ts = Chosen r -> candidate n ts r = true.
+Proof. exact choose_is_candidate. Qed.
+Print Assumptions C16_choose_is_candidate.
+
+(* why all_sane: a free type with negative RAM is adequate for a negative request but is skipped *)
+Theorem C16_choose_needs_sane :
+  let n := {| n_ram := -5; n_vcpus := 0; n_scratch := 0; n_preempt := false |} in
+  let t := mkit 1 0 (-1) 1 0 false in
+  adequate n t = true /\ choose_need n [t] = ErrUnsat [t].
+Proof. exact choose_needs_sane. Qed.
+Print Assumptions C16_choose_needs_sane.
+
+(* arithmetic: within sums < 2^63/100 the int64 computation is the mathematical (x*100)/95 ... *)
+Theorem C16_no_overflow_range : forall r kc res,
+  0 <= r -> 0 <= kc -> 0 <= res -> (r + kc + res) * 100 < two63 ->
+  need_ram r kc res = (r + kc + res) * 100 / 95.
+Proof. exact no_overflow_range. Qed.
+Print Assumptions C16_no_overflow_range.
+
+(* ... so a type has enough RAM iff 95% of (RAM + 1) exceeds RAM + KeepCacheRAM + ReserveExtraRAM *)
+Theorem C16_ram_threshold : forall r kc res cap,
+  0 <= r -> 0 <= kc -> 0 <= res -> (r + kc + res) * 100 < two63 ->
+  (need_ram r kc res <= cap <-> (r + kc + res) * 100 < (cap + 1) * 95).
+Proof. exact ram_threshold. Qed.
+Print Assumptions C16_ram_threshold.
+
+(* beyond that range the code wraps around (modelled, witness replayed by the harness stratum "overflow") *)
+Theorem C16_need_ram_wraps : need_ram 92233720368547759 0 0 < 0.
+Proof. exact need_ram_wraps. Qed.
+Print Assumptions C16_need_ram_wraps.
+
+(* scratch = max(sum of tmp mount capacities, image estimate) + image estimate *)
+Theorem C16_scratch_formula : forall c,
+  Forall (fun m => 0 <= snd m) (c_mounts c) ->
+  0 <= estimate_image (c_image c) ->
+  Z.max (tmp_total (c_mounts c)) (estimate_image (c_image c)) + estimate_image (c_image c) < two63 ->
+  estimate_scratch c = Z.max (tmp_total (c_mounts c)) (estimate_image (c_image c)) + estimate_image (c_image c).
+Proof. exact scratch_formula. Qed.
+Print Assumptions C16_scratch_formula.
+
+(* image estimate: ((n - 80) / 42) * 64 MiB for a PDH "<32 hex>+n" with n >= 122, else 0 *)
+Theorem C16_image_formula : forall pdh n,
+  pdh_size pdh = Some n -> 122 <= n -> ((n - 80) / 42) * mib64 < two63 ->
+  estimate_image pdh = ((n - 80) / 42) * mib64.
+Proof. exact image_formula. Qed.
+Print Assumptions C16_image_formula.
+
+Theorem C16_image_small : forall pdh, (forall n, pdh_size pdh = Some n -> n < 122) -> estimate_image pdh = 0.
+Proof. exact image_small. Qed.
+Print Assumptions C16_image_small.
+
+(* the boolean specification that judges the implementation's answers is the Prop-level one *)
+Theorem C16_choose_spec_reflects : forall c, spec_b c = true <-> Spec c.
+Proof. exact choose_spec_reflects. Qed.
+Print Assumptions C16_choose_spec_reflects.
+
+(* first half of the property for all tables, reserves and containers: inside the int64 range
+   (Spec's in_range) the model's answer is a table entry that satisfies
+     VCPUs, (RAM + KeepCacheRAM + reserve) * 100 < (type RAM + 1) * 95, scratch, preemptibility
+   and no satisfying type is cheaper; if none satisfies them the answer is the error listing every
+   type by price *)
+Theorem C16_choose_meets_spec : forall ts reserve c,
+  NoDup (map it_id ts) -> Spec (model_case ts reserve c).
+Proof. exact choose_meets_spec. Qed.
+Print Assumptions C16_choose_meets_spec.
+
+Theorem C16_spec_example_chosen :
+  let ts := [T 0 4 1000 2 0 false; T 1 2 1000 2 0 false; T 2 1 900 2 0 false] in
+  let c := mkctr 900 50 2 [] EmptyString false in
+  in_range_b 0 ts c = true /\ choose 0 ts c = Chosen (T 1 2 1000 2 0 false) /\ spec_b (model_case ts 0 c) = true.
+Proof. exact spec_example_chosen. Qed.
+Print Assumptions C16_spec_example_chosen.
+
+Theorem C16_spec_example_unsat :
+  let ts := [T 0 4 1000 2 0 false; T 1 2 1000 2 0 false] in
+  let c := mkctr 900 51 2 [] EmptyString false in
+  in_range_b 0 ts c = true /\ kind_of (choose 0 ts c) = 2%N /\ spec_b (model_case ts 0 c) = true.
+Proof. exact spec_example_unsat. Qed.
+Print Assumptions C16_spec_example_unsat.
+
+(* ---------------------------------------------------------------------------------------------- *)
+(* runQueue: one scheduling pass as a function of the sorted queue, pool.Running(),                *)
+(* pool.Unallocated() and an ARBITRARY pool behaviour (AtQuota / KillContainer / Create /           *)
+(* StartContainer as state machines over any type P).                                              *)
+From AV Require Import model.C16_runq model.C16_runq_run proofs.C16_runq.
+
+Section Pool.
+Variable P : Type.
+Variable p_quota : P -> bool * P.
+Variable p_kill p_create : N -> P -> bool * P.
+Variable p_start : N -> N -> P -> bool * P.
+Variable running : list N.
+Notation rq := (run_queue_sorted P p_quota p_kill p_create p_start running).
+
+(* sort.Slice(priority desc): the executable model's sort is one admissible outcome *)
+Theorem C16_psort_is_sorted_permutation : forall ents,
+  Permutation (psort ents) ents /\ StronglySorted (fun a b => e_prio b <= e_prio a) (psort ents).
+Proof. exact psort_sorted_perm. Qed.
+
+(* StartContainer is attempted only for a cache-Locked entry with priority >= 1 whose uuid is not in
+   pool.Running(), on that entry's instance type *)
+Theorem C16_start_only_locked_positive : forall sorted u0 p it u r,
+  In (EStart it u r) (r_log (rq sorted u0 p)) ->
+  exists e, In e sorted /\ e_uuid e = u /\ e_it e = it /\ e_state e = Locked /\ 1 <= e_prio e /\ memN u running = false.
+Proof. exact (rq_start_only_locked_positive P p_quota p_kill p_create p_start running). Qed.
+
+(* dontstart latch: after a failed StartContainer(it, _) no later StartContainer(it, _) in the pass *)
+Theorem C16_dontstart_latch : forall sorted u0 p a it u b,
+  r_log (rq sorted u0 p) = a ++ EStart it u false :: b -> forall u' r', ~ In (EStart it u' r') b.
+Proof. exact (rq_dontstart_latch_prop P p_quota p_kill p_create p_start running). Qed.
+
+(* hence no lower-priority start overtakes a Locked container waiting for a worker of the same type:
+   if StartContainer is attempted for u, every Locked, priority >= 1, not-running v of the same type
+   and strictly higher priority was started successfully in this pass, or its previous crunch-run is
+   still being killed, or the pool refused to create an instance for it *)
+Theorem C16_no_overtake : forall sorted u0 p v u r,
+  StronglySorted (fun a b => e_prio b <= e_prio a) sorted -> NoDup (map e_uuid sorted) ->
+  In v sorted -> In u sorted -> e_it u = e_it v -> e_prio u < e_prio v ->
+  e_state v = Locked -> eligible running v = true ->
+  In (EStart (e_it u) (e_uuid u) r) (r_log (rq sorted u0 p)) ->
+  In (EStart (e_it v) (e_uuid v) true) (r_log (rq sorted u0 p)) \/
+  In (EKill (e_uuid v) true) (r_log (rq sorted u0 p)) \/
+  In (ECreate (e_it v) false) (r_log (rq sorted u0 p)).
+Proof. exact (rq_no_overtake P p_quota p_kill p_create p_start running). Qed.
+
+(* overquota tail: the unlocked set is a priority-suffix: if u is unlocked, every Locked entry of
+   strictly lower priority is unlocked too (none keeps its lock) *)
+Theorem C16_overquota_tail : forall sorted u0 p u v,
+  StronglySorted (fun a b => e_prio b <= e_prio a) sorted -> NoDup (map e_uuid sorted) ->
+  In u sorted -> In v sorted -> e_prio v < e_prio u -> e_state v = Locked ->
+  In (EUnlock (e_uuid u)) (r_log (rq sorted u0 p)) -> In (EUnlock (e_uuid v)) (r_log (rq sorted u0 p)).
+Proof. exact (rq_overquota_tail P p_quota p_kill p_create p_start running). Qed.
+
+(* KillContainer answered "no process" immediately before every StartContainer *)
+Theorem C16_kill_before_start : forall sorted u0 p a it u r b,
+  r_log (rq sorted u0 p) = a ++ EStart it u r :: b -> exists a', a = a' ++ [EKill u false].
+Proof. exact (rq_kill_before_start P p_quota p_kill p_create p_start running). Qed.
+
+(* second half of the property, for every pool behaviour, snapshot and outcome of the unstable sort *)
+Theorem C16_run_queue_meets_spec : forall ents sorted u0 p,
+  Permutation sorted ents -> StronglySorted (fun a b => e_prio b <= e_prio a) sorted -> NoDup (map e_uuid ents) ->
+  RqSpec ents running (r_log (rq sorted u0 p)) (r_locks (rq sorted u0 p)).
+Proof. exact (run_queue_meets_spec P p_quota p_kill p_create p_start running). Qed.
+End Pool.
+Print Assumptions C16_psort_is_sorted_permutation.
+Print Assumptions C16_start_only_locked_positive.
+Print Assumptions C16_dontstart_latch.
+Print Assumptions C16_no_overtake.
+Print Assumptions C16_overquota_tail.
+Print Assumptions C16_kill_before_start.
+Print Assumptions C16_run_queue_meets_spec.
+
+(* the boolean specification that judges the observed call log is the Prop-level one *)
+Theorem C16_rq_spec_reflects : forall ents run log lk, rq_spec_b ents run log lk = true <-> RqSpec ents run log lk.
+Proof. exact rq_spec_reflects. Qed.
+Print Assumptions C16_rq_spec_reflects.
+
+Theorem C16_rq_spec_is_evaluator_spec : forall c,
+  C16_runq_run.spec_b c = rq_spec_b (q_ents c) (q_running c) (o_log c) (o_locks c).
+Proof. exact spec_b_rq. Qed.
+Print Assumptions C16_rq_spec_is_evaluator_spec.
+
+(* satisfiable and not vacuous *)
+Theorem C16_rq_example :
+  let ents := [E 1 1 5 0; E 2 1 9 0; E 3 1 7 0] in
+  let res := run_queue_stub (psort ents) [] [(0%N, 3)] (mkstub [false] [] [] [(0%N, 1)]) in
+  r_log res = [EKill 2 false; EStart 0 2 true; EKill 3 false; EStart 0 3 false] /\
+  rq_spec_b ents [] (r_log res) (r_locks res) = true.
+Proof. exact rq_example. Qed.
+Print Assumptions C16_rq_example.
+
+Theorem C16_rq_example_rejected :
+  let ents := [E 1 1 5 0; E 2 1 9 0] in
+  rq_spec_b ents [] [EKill 1 false; EStart 0 1 true] [] = false.
+Proof. exact rq_example_rejected. Qed.
+Print Assumptions C16_rq_example_rejected.
